@@ -18,6 +18,8 @@ KEYWORDS = ['def', 'rep', 'ns', 'wflip', 'pad', 'segment', 'reserve']
 PUNCT = [';', ':', ',', '(', ')', '{', '}', '@', '<', '>', '=', '+', '-', '*', '/', '%', '$', '^', '|', '&', '~', '?', '#',
          '"', "'", '.', '<<', '>>', '**', '&&', '||', '<=', '>=', '==', '!=', '\n', '\\', '!', '`', '[', ']']
 WIDTHS = [8, 16, 32, 64]
+# what a cyclic macro recursion has to end in: the preprocessor's own check (macro_resolve_error)
+DEPTH_DIAGNOSTIC = {'cls': 'FlipJumpPreprocessorException', 'msg': 'maximal macro-expansion recursive depth'}
 VERSIONS = [0, 1, 2, 3]
 
 
@@ -391,12 +393,12 @@ def _deep_expr_json_literal(kind, n, leaf):
 
 def gen_recursion(rng, n):
     out = [
-        case('recursion', 'def m {\nm\n}\nm\n', 'macro calls itself'),
-        case('recursion', 'def a {\nb\n}\ndef b {\na\n}\na\n', 'mutual macro recursion'),
-        case('recursion', 'def m a {\nm a+1\n}\nm 0\n', 'recursion with a growing argument'),
-        case('recursion', 'def m a {\nrep(1, i) m a\n}\nm 0\n', 'recursion through rep'),
-        case('recursion', 'def m {\nm\n}\nm\n', 'macro recursion, small limit', max_depth=5),
-        case('recursion', 'def m {\nm\n}\nm\n', 'macro recursion, limit 1', max_depth=1),
+        case('recursion', 'def m {\nm\n}\nm\n', 'macro calls itself', require=DEPTH_DIAGNOSTIC),
+        case('recursion', 'def a {\nb\n}\ndef b {\na\n}\na\n', 'mutual macro recursion', require=DEPTH_DIAGNOSTIC),
+        case('recursion', 'def m a {\nm a+1\n}\nm 0\n', 'recursion with a growing argument', require=DEPTH_DIAGNOSTIC),
+        case('recursion', 'def m a {\nrep(1, i) m a\n}\nm 0\n', 'recursion through rep', require=DEPTH_DIAGNOSTIC),
+        case('recursion', 'def m {\nm\n}\nm\n', 'macro recursion, small limit', max_depth=5, require=DEPTH_DIAGNOSTIC),
+        case('recursion', 'def m {\nm\n}\nm\n', 'macro recursion, limit 1', max_depth=1, require=DEPTH_DIAGNOSTIC),
         case('recursion', 'def m {\n;\n}\nm\n', 'one call, limit 0', max_depth=0),
         case('recursion', 'def a {\nb\n}\ndef b {\nc\n}\ndef c {\n;\n}\na\n', 'depth 3 with limit 3 (legal)', max_depth=3),
         case('recursion', 'def a {\nb\n}\ndef b {\nc\n}\ndef c {\n;\n}\na\n', 'depth 3 with limit 2', max_depth=2),
@@ -446,7 +448,7 @@ def gen_rep_recursion(rng, n):
         ('a -> b -> rep c -> a', 'def a {\nb\n}\ndef b {\nrep(1, i) c\n}\ndef c {\na\n}\na'),
         ('a -> rep b -> rep a', 'def a {\nrep(1, i) b\n}\ndef b {\nrep(1, j) a\n}\na'),
         ('rep with a growing argument', 'def loop k {\nrep(1, i) loop k+i+1\n}\nloop 0'),
-        ('rep with the iterator as argument', 'def loop k {\nrep(2, i) loop i\n}\nloop 0'),
+        ('rep with the iterator as argument', 'def loop k {\nrep(2, i) loop i+k\n}\nloop 0'),
         ('rep count from the parameter', 'def loop k {\nrep(k, i) loop k\n}\nloop 1'),
         ('rep twice per level', 'def loop {\nrep(2, i) loop\n}\nloop'),
         ('rep after an op', 'def loop {\n;\nrep(1, i) loop\n}\nloop'),
@@ -462,6 +464,8 @@ def gen_rep_recursion(rng, n):
         hint, text = progs[i % len(progs)]
         md = REC_DEPTHS[(i // len(progs)) % len(REC_DEPTHS)]
         c = case('recursion', text + '\n', f'macro recursion: {hint}, max_recursion_depth={md}', max_depth=md)
+        if 'legal' not in hint:
+            c['require'] = DEPTH_DIAGNOSTIC
         if md is not None and md > 900:
             c['nomodel'] = True         # fuel 2000 with path strings of 40 KB: too slow for vm_compute
         out.append(c)
